@@ -49,6 +49,10 @@ def declare(reg):
                      "forall(j, range(0, len(result)), exists(k, self._ip_db, result[j]['obfuscated'] == uf('int2ip', STR, k) and "
                      "       result[j]['original'] == uf('int2ip', STR, self._ip_db[k])))",
                  ])
+    # the constructor establishes the invariant (an empty database is injective): base case of the induction over the call history
+    reg.classes["IPv4"].update(_ignore_list=List(STR), pattern=STR)
+    reg.contract(IP, "IPv4.__init__", params=dict(self=V4), modifies=["IPv4._ip_db", "IPv4._start_ip", "IPv4._ignore_list", "IPv4.pattern"], raises={},
+                 ensures=["isempty(keys(self._ip_db))", INJ4, "forall(o, Ref_V4, implies(o != self, o._ip_db == old(o._ip_db)))"])
     # ------------------------------------------------------------------ Hostname
     reg.cls("Hostname", _hn_db=Map(STR, STR), _hostname_count=INT, _dn_db=Map(STR, STR), _obfuscated_domain=STR, _obfuscated_fqdn=STR, _fqdn=STR)
     FMT = "uf('fmt_host_s__s', STR, n, d)"
@@ -71,6 +75,28 @@ def declare(reg):
                           "implies(not %s, result not in old(self._hn_db) and self._hn_db == store(old(self._hn_db), result, hn) and "
                           "        self._hostname_count == old(self._hostname_count) + 1)" % KNOWNH,
                           ])
+    # the constructor ESTABLISHES the database invariant _hn2db preserves (base case of the induction over the call history): exactly the
+    # system's own name is in the database, under its hashed substitute
+    reg.classes["Hostname"].update(_hostname=STR, _domain=Opt(STR), _domain_count=INT)
+    reg.external("six.PY3", returns=BOOL, pure=True)
+    reg.external("hashlib.sha1", params=dict(b=None), returns=Ref("Sha"), pure=True)
+    reg.cls("Sha")
+    reg.interface("Sha", "hexdigest", params=dict(self=Ref("Sha")), returns=STR, pure=True, raises={})
+    for n in ("logger.debug", "logger.warning"):
+        reg.external(n, drop=True)
+    reg.contract(HN, "Hostname._domains2db", params=dict(self=H), returns=Opt(BOOL), modifies=["Hostname._dn_db", "Hostname._domain_count"], raises={},
+                 ensures=["forall(o, Ref_H, o._hn_db == old(o._hn_db) and o._hostname_count == old(o._hostname_count))"])
+    reg.contract(HN, "Hostname.__init__", params=collections.OrderedDict(self=H, fqdn=STR),
+                 modifies=["Hostname." + f for f in ("_fqdn", "_hostname", "_domain", "_hn_db", "_hostname_count", "_obfuscated_domain", "_dn_db",
+                                                     "_domain_count", "_obfuscated_fqdn")],
+                 locals=dict(name_list=List(STR)), raises={},
+                 assume=["uf('hn_index', INT, self._obfuscated_fqdn) == 0"],
+                 ensures=["self._fqdn == fqdn", "self._hostname_count == 1",
+                          "self._obfuscated_fqdn in self._hn_db and self._hn_db[self._obfuscated_fqdn] == fqdn",
+                          "forall(k, self._hn_db, k == self._obfuscated_fqdn)",
+                          # the invariant of _hn2db (its precondition)
+                          INJH, KEYSH, "self._hostname_count >= 0"],
+                 note="the hashed substitute of the system's own name is not of the form host<n>.<domain> (assumed, as for _hn2db)")
     MAPS = List(Map(STR, STR))
     reg.contract(HN, "Hostname.mapping", params=dict(self=H), returns=MAPS, locals=dict(mapping=MAPS), empties=dict(list=MAPS), raises={},
                  ensures=["forall(k, self._hn_db, exists(j, range(0, len(result)), result[j]['obfuscated'] == k and result[j]['original'] == self._hn_db[k]))",
